@@ -241,6 +241,45 @@ void mux_stream_off(const pktlist_t *pk, int serial, int policy, int fill, uint6
   while(ogg_stream_flush(&os,&og)) emit_page(out,&og);
   ogg_stream_clear(&os);
 }
+
+static void raw_page(buf_t *out,int serial,long *pageno,int flags,ogg_int64_t gp,const unsigned char *lace,int nl,const unsigned char *body,long bl){
+  unsigned char h[27+255]; memcpy(h,"OggS",4); h[4]=0; h[5]=(unsigned char)flags;
+  for(int b=0;b<8;b++) h[6+b]=(unsigned char)((uint64_t)gp>>(8*b));
+  for(int b=0;b<4;b++) h[14+b]=(unsigned char)((uint32_t)serial>>(8*b));
+  for(int b=0;b<4;b++) h[18+b]=(unsigned char)((uint32_t)*pageno>>(8*b));
+  memset(h+22,0,4); h[26]=(unsigned char)nl; memcpy(h+27,lace,nl); (*pageno)++;
+  ogg_page og; og.header=h; og.header_len=27+nl; og.body=(unsigned char*)body; og.body_len=bl; ogg_page_checksum_set(&og);
+  buf_add(out,h,27+nl); buf_add(out,body,bl);
+}
+static int lace_add(unsigned char *lace,int *nl,unsigned char *body,long *bl,const unsigned char *d,long n,int terminate){
+  long left=n; while(left>=255){ if(*nl>=255) return -1; lace[(*nl)++]=255; left-=255; }
+  if(terminate){ if(*nl>=255) return -1; lace[(*nl)++]=(unsigned char)left; }
+  else if(left) return -1;   /* an unterminated piece must be a multiple of 255 */
+  memcpy(body+*bl,d,n); *bl+=n; return 0;
+}
+void mux_tailpages(const pktlist_t *pk, int serial, uint64_t seed, buf_t *out){
+  rng_t r; rng_seed(&r,seed,0x7a11,(uint64_t)serial); long pageno=0; static unsigned char body[70000]; unsigned char lace[256]; int nl; long bl;
+  nl=0;bl=0; lace_add(lace,&nl,body,&bl,pk->v[0].data,pk->v[0].bytes,1); raw_page(out,serial,&pageno,2,0,lace,nl,body,bl);
+  nl=0;bl=0; lace_add(lace,&nl,body,&bl,pk->v[1].data,pk->v[1].bytes,1); if(lace_add(lace,&nl,body,&bl,pk->v[2].data,pk->v[2].bytes,1)){ /* setup too large for one page with the comment: own pages via libogg is not worth it here */ }
+  raw_page(out,serial,&pageno,0,0,lace,nl,body,bl);
+  int i=3, pg=0;
+  while(i<pk->n){
+    nl=0;bl=0;
+    if(pg%4==2 && i+2<pk->n-2 && pk->v[i+2].bytes>300 && pk->v[i].bytes+pk->v[i+1].bytes<40000){
+      lace_add(lace,&nl,body,&bl,pk->v[i].data,pk->v[i].bytes,1); lace_add(lace,&nl,body,&bl,pk->v[i+1].data,pk->v[i+1].bytes,1);
+      lace_add(lace,&nl,body,&bl,pk->v[i+2].data,255,0);
+      raw_page(out,serial,&pageno,0,pk->v[i+1].granulepos,lace,nl,body,bl);
+      nl=0;bl=0; lace_add(lace,&nl,body,&bl,pk->v[i+2].data+255,pk->v[i+2].bytes-255,1);
+      raw_page(out,serial,&pageno,1,pk->v[i+2].granulepos,lace,nl,body,bl);
+      i+=3; pg++; continue;
+    }
+    int cnt=(int)rng_range(&r,1,3), c=0;
+    for(;c<cnt && i<pk->n;c++,i++) if(lace_add(lace,&nl,body,&bl,pk->v[i].data,pk->v[i].bytes,1)){ break; }
+    if(c==0){ i++; continue; }   /* packet too large for a hand-made page: skip it (the stream then has a hole, still valid input) */
+    raw_page(out,serial,&pageno,i>=pk->n?4:0,pk->v[i-1].granulepos,lace,nl,body,bl);
+    pg++;
+  }
+}
 int page_scan(const unsigned char *d, size_t n, pageinfo_t **out){
   ogg_sync_state oy; ogg_page og; int cnt=0, cap=64; pageinfo_t *v=malloc(sizeof(*v)*cap);
   long base=0; size_t fed=0;
